@@ -2,6 +2,9 @@ import Spine.ApprovalLive
 import Spine.LockTables
 import Spine.Generated.Locks
 import Spine.Generated.ApprovalLocks
+import Spine.Generated.Approval
+import Spine.ApprovalThm
+import Spine.ApprovalConn
 /-!
 # C12 — lock order of the approval machinery, regenerated on every run (tie b1)
 
@@ -71,5 +74,42 @@ theorem c12_every_pending_write_gets_an_outcome (n : Nat) (evs : List Appr.Ev) (
 /-- non-vacuity: two callbacks, one approval so far, a verdict past its lookup: the timeout still resolves it -/
 example : ((Appr.run Appr.Cfg.clean 2 ([.arrive 1, .lookup 10 1, .commit 10 true, .lookup 11 1] ++
     [.timeoutTake 1, .timeoutSend 1])).outcomes.map (·.1)).count 1 = 1 := by decide
+
+/-! ### event granularity and flags of the model, regenerated (translator generator `approval`)
+
+`Spine.Appr` splits a verdict into `lookup` / `commit` and the timeout into `timeoutTake` / `timeoutSend`; the family
+flags `ignoreStop` and `recheck` say whether the result of `timer.Stop()` is used and whether the pending entry is
+looked at again before the tally is touched. The probe phase of the harness selects the member by running witnesses;
+here the same is read off the source (semantically: registries by their types, helpers inlined) and re-checked. -/
+
+/-- a verdict is two critical sections (pending lookup under the registry's mutex alone; then tally, Stop, removal,
+    result / apply in ONE section of the tally mutex), the timeout function is two halves (removal under the
+    registry's mutex, result with no mutex of the feature held): the events of `Spine.Appr` -/
+theorem c12_events_match_source :
+    Generated.Approval.verdictTwoSections = true ∧ Generated.Approval.commitOneSection = true ∧
+    Generated.Approval.timeoutTwoHalves = true := by decide
+
+/-- the member of the family the SOURCE is, for the two flags that are visible in the text: the result of Stop() is
+    used — and guards EVERY result: nothing is sent or applied after the Stop() on a path that has not tested its result,
+    for the approval and for the denial alike — and the pending entry is re-checked — the repaired values (the tally flag and the message-identity flag are
+    probed by witnesses only) -/
+theorem c12_source_member_flags :
+    (!(Generated.Approval.stopResultUsed && Generated.Approval.stopGuardsEveryResult)) = Appr.Cfg.clean.ignoreStop ∧
+    Generated.Approval.recheck = ({} : ApprE.Cfg).recheck := by decide
+
+/-- "no write ever has two outcomes", all schedules, for the member whose `ignoreStop` flag is READ FROM THE SOURCE
+    (tally flag as probed: repaired) -/
+theorem c12_at_most_one_outcome_source (n : Nat) (evs : List Appr.Ev) (w : Nat) :
+    ((Appr.run { tallyReset := false,
+                 ignoreStop := !(Generated.Approval.stopResultUsed && Generated.Approval.stopGuardsEveryResult) }
+        n evs).outcomes.filter (·.1 = w)).length ≤ 1 := by
+  have h : (!(Generated.Approval.stopResultUsed && Generated.Approval.stopGuardsEveryResult)) = false := by decide
+  rw [h]
+  exact Appr.c12_at_most_one_outcome n evs w
+
+/-- non-vacuity: on a source that discards the result of Stop() the same statement is false (the racing schedule) -/
+example : ¬ ((Appr.run { tallyReset := false, ignoreStop := !false } 1
+    [.arrive 1, .lookup 10 1, .timeoutTake 1, .timeoutSend 1, .commit 10 true]).outcomes.filter (·.1 = 1)).length ≤ 1 := by
+  decide
 
 end Spine.Props.C12Gen
